@@ -39,7 +39,7 @@ impl<'a, 'tcx> H<'a, 'tcx> {
                 let mut v: Vec<(&'static str, J)> = vec![
                     ("def", J::s(self.cx.path(did))),
                     ("dk", J::s(format!("{:?}", kind))),
-                    ("name", J::s(self.tcx.item_name(did).to_string())),
+                    ("name", J::s(self.cx.name(did))),
                 ];
                 // variant / ctor -> the enum / struct
                 match kind {
